@@ -99,9 +99,11 @@ theorem gen_shift_body (t0 : Int) (n : Nat) (i : Int) (l : List Int) (hl : l.len
   unfold Gen.P.shift_loop1_body sweepStep
   by_cases hi : i > 0
   · have hj : ((n : Int) - i - 1) = ((n - 1 - i.toNat : Nat) : Int) := by omega
+    have hj' : ((n : Int) - 1 - i) = ((n - 1 - i.toNat : Nat) : Int) := by omega
+    have hj'' : (((n - 1 : Nat) : Int) - i) = ((n - 1 - i.toNat : Nat) : Int) := by omega
     have hn1 : ((n : Int) - 1) = ((n - 1 : Nat) : Int) := by omega
     have hj1 : ((n - 1 - i.toNat : Nat) : Int) + 1 = ((n - 1 - i.toNat + 1 : Nat) : Int) := by push_cast; rfl
-    simp only [hi, decide_true, if_true, hj, hn1, hj1]
+    simp only [hi, decide_true, if_true, hj, hj', hn1, hj'', hj1]
     rw [arrSlice_eq l _ _ (by omega) (by omega), arrSlice_eq l _ _ (by omega) (by omega)]
     have hlen : ((l.drop (n - 1 - i.toNat)).take (n - 1 - (n - 1 - i.toNat))).length = (arrScale t0 ((l.drop (n - 1 - i.toNat + 1)).take (n - (n - 1 - i.toNat + 1)))).length := by
       simp [arrScale]; omega
@@ -421,20 +423,32 @@ theorem sweep_row (t0 : Int) (n : Nat) (i : Int) (l : List Int) (hl : l.length =
     (arrZip (fun x y => x - y) (arrSlice l (some ((n : Int) - i - 1)) (some ((n : Int) - 1)))
         (arrScale t0 (arrSlice l (some ((n : Int) - i - 1 + 1)) (some (n : Int)))) >>= fun v =>
       arrSetSlice l (some ((n : Int) - i - 1)) (some ((n : Int) - 1)) v) = .ok (sweepStep t0 n i l) := by
-  have := gen_shift_body t0 n i l hl (by omega) h1
-  unfold Gen.P.shift_loop1_body at this
-  have hi : decide (i > 0) = true := by simpa using h0
-  simp only [hi, if_true, bind, Except.bind, pure, Except.pure] at this ⊢
-  revert this
-  cases arrZip (fun x y => x - y) (arrSlice l (some ((n : Int) - i - 1)) (some ((n : Int) - 1)))
-        (arrScale t0 (arrSlice l (some ((n : Int) - i - 1 + 1)) (some (n : Int)))) with
-  | error e => simp
-  | ok v =>
-    simp only
-    cases arrSetSlice l (some ((n : Int) - i - 1)) (some ((n : Int) - 1)) v with
-    | error e => simp
-    | ok w => simp
-
+  have hi : i > 0 := h0
+  unfold sweepStep
+  simp only [hi, if_true]
+  have hj : ((n : Int) - i - 1) = ((n - 1 - i.toNat : Nat) : Int) := by omega
+  have hj' : ((n : Int) - 1 - i) = ((n - 1 - i.toNat : Nat) : Int) := by omega
+  have hj'' : (((n - 1 : Nat) : Int) - i) = ((n - 1 - i.toNat : Nat) : Int) := by omega
+  have hn1 : ((n : Int) - 1) = ((n - 1 : Nat) : Int) := by omega
+  have hj1 : ((n - 1 - i.toNat : Nat) : Int) + 1 = ((n - 1 - i.toNat + 1 : Nat) : Int) := by push_cast; rfl
+  simp only [hj, hj', hn1, hj'', hj1]
+  rw [arrSlice_eq l _ _ (by omega) (by omega), arrSlice_eq l _ _ (by omega) (by omega)]
+  have hlen : ((l.drop (n - 1 - i.toNat)).take (n - 1 - (n - 1 - i.toNat))).length = (arrScale t0 ((l.drop (n - 1 - i.toNat + 1)).take (n - (n - 1 - i.toNat + 1)))).length := by
+    simp [arrScale]; omega
+  simp only [arrZip, hlen, if_true, bind, Except.bind, pure, Except.pure]
+  rw [arrSetSlice_eq l _ _ _ (by omega) (by omega) (by simp [arrScale]; omega)]
+  simp only [List.append_assoc]
+  congr 2
+  have hs : 0 < (l.drop (n - 1 - i.toNat)).length := by simp; omega
+  rw [pass_zip t0 _ hs]
+  have e1 : (l.drop (n - 1 - i.toNat)).length - 1 = n - 1 - (n - 1 - i.toNat) := by simp; omega
+  have e2 : (l.drop (n - 1 - i.toNat)).drop 1 = (l.drop (n - 1 - i.toNat + 1)).take (n - (n - 1 - i.toNat + 1)) := by
+    rw [List.drop_drop, List.take_of_length_le (by simp; omega)]
+  have e3 : (l.drop (n - 1 - i.toNat)).drop ((l.drop (n - 1 - i.toNat)).length - 1) = l.drop (n - 1) := by
+    rw [List.drop_drop, e1]; congr 1; omega
+  rw [e3, e1, ← e2]
+  congr 1
+  simp only [arrScale, List.zipWith_map_right]
 
 theorem sameShape_map (M : IntArr2) (f g : List Int → List Int) (h : ∀ r ∈ M, (f r).length = (g r).length) :
     sameShape (M.map f) (M.map g) = true := by
@@ -482,9 +496,11 @@ theorem gen_shift2_cols_body (t0 : Int) (m : Nat) (i : Int) (M : IntArr2) (hM : 
       intro r hr
       have hl := hM r hr
       have hj : ((m : Int) - i - 1) = ((m - 1 - i.toNat : Nat) : Int) := by omega
+      have hj' : ((m : Int) - 1 - i) = ((m - 1 - i.toNat : Nat) : Int) := by omega
+      have hj'' : (((m - 1 : Nat) : Int) - i) = ((m - 1 - i.toNat : Nat) : Int) := by omega
       have hn1 : ((m : Int) - 1) = ((m - 1 : Nat) : Int) := by omega
       have hj1 : ((m - 1 - i.toNat : Nat) : Int) + 1 = ((m - 1 - i.toNat + 1 : Nat) : Int) := by push_cast; rfl
-      simp only [Function.comp, hj, hn1, hj1, arrScale, List.length_map]
+      simp only [Function.comp, hj, hj', hn1, hj'', hj1, arrScale, List.length_map]
       rw [arrSlice_eq r _ _ (by omega) (by omega), arrSlice_eq r _ _ (by omega) (by omega)]
       simp; omega
     have hs1 := sameShape_map M _ _ hrow
@@ -596,9 +612,11 @@ theorem gen_shift2_rows_body (t0 : Int) (n m : Nat) (i : Int) (l : IntArr2) (hl 
   unfold Gen.P.shift2_loop1_body sweepStep2
   by_cases hi : i > 0
   · have hj : ((n : Int) - i - 1) = ((n - 1 - i.toNat : Nat) : Int) := by omega
+    have hj' : ((n : Int) - 1 - i) = ((n - 1 - i.toNat : Nat) : Int) := by omega
+    have hj'' : (((n - 1 : Nat) : Int) - i) = ((n - 1 - i.toNat : Nat) : Int) := by omega
     have hn1 : ((n : Int) - 1) = ((n - 1 : Nat) : Int) := by omega
     have hj1 : ((n - 1 - i.toNat : Nat) : Int) + 1 = ((n - 1 - i.toNat + 1 : Nat) : Int) := by push_cast; rfl
-    simp only [hi, decide_true, if_true, hj, hn1, hj1, arr2SliceRows]
+    simp only [hi, decide_true, if_true, hj, hj', hn1, hj'', hj1, arr2SliceRows]
     rw [arrSlice_eq l _ _ (by omega) (by omega), arrSlice_eq l _ _ (by omega) (by omega)]
     have hA : ∀ r ∈ (l.drop (n - 1 - i.toNat)).take (n - 1 - (n - 1 - i.toNat)), r.length = m :=
       fun r hr => hrect r (List.mem_of_mem_drop (List.mem_of_mem_take hr))
